@@ -414,6 +414,10 @@ fn blobs(rep: &mut Report, seed: u64, n: u64) {
         let enc = t.encode();
         match Tags::decode(&enc) {
             Ok(t2) if t2 == t => {}
+            // (listed finding: decode filters empty tag names out)
+            Ok(t2) if t.iter().any(|x| x.is_empty()) && t2.iter().collect::<Vec<_>>() == t.iter().filter(|x| !x.is_empty()).collect::<Vec<_>>() => {
+                rep.violation("C17:Tags:empty-tag-dropped", &format!("Tags {:?} -> {:?}", t, t2), json!({"seed": seed, "i": i}), J::Null)
+            }
             other => rep.violation("C17:Tags:roundtrip", &format!("Tags {:?} -> {:?}", t, other.map(|x| format!("{:?}", x))), json!({"seed": seed, "i": i}), J::Null),
         }
         rep.count("blob.Tags");
